@@ -920,7 +920,8 @@ func key(sc scenario) string { b, _ := json.Marshal(sc); return string(b) }
 
 func main() {
 	r := h.Init("C05")
-	r.Imports = []string{"GU.C05.Model"}
+	r.Imports = []string{"GU.C05.Model", "GU.C05.Gen"}
+	r.CheckFn = "(check_case gen_facts)" // the model instantiated with the facts regenerated from the source
 	r.Rule("real process trees (sh): shapes = chains/fans up to depth 3, any node TERM-ignoring / not holding the pipes / leaving the group / exiting before its children; " +
 		"start in {Execute, Start, supervisor} x stop in {context cancel, deadline, Cancel, Stop, Restart} x stop instant in {0,1,3,10,30 ms after running, fully spawned}; " +
 		"non-trivial = tree with at least one descendant; distinct by full scenario")
